@@ -440,7 +440,16 @@ def rule_d(chk, prog, fs):
                and n.targets[0].attr == "season_counter" and fl.stmt_node.get(id(n)) in fl.cfg.dominators()[cn]
                and fl.cfg.transitive_control_deps(fl.stmt_node[id(n)]) == fl.cfg.transitive_control_deps(cn)]
         construct = "reset_initial_conditions(...) preceded by season_counter + 1 in the same block"
-        if inc and norm(inc[0].value).endswith(".season_counter + 1"):
+        def _is_increment(v, at, depth=0):
+            """`<clock>.season_counter + 1`, directly or through a single-definition local"""
+            if norm(v).endswith(".season_counter + 1"):
+                return True
+            if isinstance(v, ast.Name) and depth < 3:
+                ds = [d for d in fl.defs_reaching(v.id, at)]
+                if len(ds) == 1 and isinstance(fl.cfg.nodes[ds[0]].ast, ast.Assign):
+                    return _is_increment(fl.cfg.nodes[ds[0]].ast.value, ds[0], depth + 1)
+            return False
+        if inc and _is_increment(inc[0].value, fl.stmt_node[id(inc[0])]):
             chk.ok("C06.d", f"{up.module}:{up.qualname}", construct)
         else:
             chk.violation("C06.d", f"{up.module}:{up.qualname}", construct, "the season reset is not paired with the increment of the season counter", loc=up.loc(c))
